@@ -150,7 +150,14 @@ class Check:
         s.inconclusive = []
         s.counts = {}
         s._sigs = set()
-        os.makedirs(os.path.join(REPLAYS, prop), exist_ok=True)
+        rdir = os.path.join(REPLAYS, prop)
+        os.makedirs(rdir, exist_ok=True)
+        for f in os.listdir(rdir):      # replay files of earlier runs would only confuse
+            if f.endswith('.json') and not f.startswith('known-') and not os.environ.get('VERIF_KEEP_REPLAYS'):
+                try:
+                    os.remove(os.path.join(rdir, f))
+                except OSError:
+                    pass
 
     def count(s, key, n=1):
         s.counts[key] = s.counts.get(key, 0) + n
